@@ -166,7 +166,8 @@ class C20:
         for i in range(n):
             nn = rng.choice([3, 4, 4, 5])
             tm = rng.choice([3, 4, 5, 6])
-            ops = temporal_graph(rng, nn, tm, False, p=rng.choice([0.2, 0.3, 0.4]), loops=False)
+            directed = (i % 4 == 3)
+            ops = temporal_graph(rng, nn, tm, directed, p=rng.choice([0.2, 0.3, 0.4]) * (0.6 if directed else 1), loops=False)
             if not ops:
                 continue
             nodes = sorted({x for o in ops for x in (o[1], o[2])})
@@ -185,13 +186,13 @@ class C20:
             tab = [[x, l, (1 if mode == 1 else rng.randint(0, 2))] for x in nodes for l in range(nlab)]
             psize = rng.choice([1, 1, 2, nlab, nlab + (1 if i % 17 == 0 else 0)])
             prof = {"labels": list(range(nlab)), "psize": psize, "tab": tab, "alphas": ([] if i % 23 == 0 else [a for a in alphas if a % 100 == 0] or [100])}
-            yield {"cls": 0, "rem": 1, "ops": ops, "labels": labels, "start": start, "delta": delta, "alphas": alphas, "prof": prof,
+            yield {"cls": 1 if directed else 0, "rem": 1, "ops": ops, "labels": labels, "start": start, "delta": delta, "alphas": alphas, "prof": prof,
                    "ptype": rng.randint(0, 4), "nmap": nmap, "lmap": lmap, "equal": mode == 1, "ids": "int", "src": "rand",
                    "presort": i % 2 == 1}
 
     @staticmethod
     def lines(case):
-        L = [gen.header(0, 0, 1)]
+        L = [gen.header(0, case["cls"], 1)]
         L += [gen.op_line(0, op) for op in case["ops"]]
         L += ["attr 0 %d %d" % (n, a) for n, a in sorted(case["labels"].items())]
         al = " ".join(map(str, case["alphas"]))
@@ -200,7 +201,7 @@ class C20:
               "slice 0 1 %d %d" % (s, s + d), "dump 1", "pres 1 %d %d" % (s - 1, s + d + 1), "atrp 1 - - -",
               "sconf 0 %d %d %d %s" % (d, pt, len(case["alphas"]), al)]
         # renamed copy
-        L.append(gen.header(2, 0, 1))
+        L.append(gen.header(2, case["cls"], 1))
         nm, lm = case["nmap"], case["lmap"]
         if case.get("presort"):
             L += ["node 2 %d" % x for x in sorted(nm.values())]
